@@ -25,6 +25,10 @@ PARTS = {
     "relay": ("^TestVerifUDPRelay$", "UDPrelay.report.json",
               "real client and listener over loopback through a user-space relay that drops 0-30%, duplicates 0-30% and reorders "
               "0-25% for 1.5 s and then heals: bytes read are a prefix of the bytes written at every moment, and everything arrives"),
+    "neighbour": ("^TestVerifUDPNeighbour$", "UDPneighbour.report.json",
+                  "two peers on one real listener socket; the accepted session of A is rate-limited and handed 6 MB with windows of 4096 "
+                  "(its transmit queue of 2048 overflows) while A's peer keeps acknowledging; B - another address on the same socket - "
+                  "must keep echoing within 3 s per round"),
     "oob": ("^TestVerifUDPOOB$", "UDPoob.report.json",
             "two conversations on ONE source address (two sessions on one socket): out-of-band messages of sizes 0..max of conversation A "
             "reach A's handler intact; conversation B then sends only out-of-band messages - none of them may reach A's handler"),
